@@ -48,6 +48,16 @@ def frames(prop):
     add({'C10', 'C05'}, lambda: F.only_in(
         'frame/clone-sentinel-touched-only-by-new-and-drop', r'\bsentinel\b', {'new', 'drop', None}, ['src/public.rs'], min_hits=4))
 
+    add({'C10', 'C07', 'C05', 'C09'}, lambda: F.in_order(
+        'frame/add_new_observers-visits-every-queued-observer-and-handles-the-node', 'src/state.rs', 'add_new_observers',
+        [r'for\s+weak\s+in\s+no\.drain\(\.\.\)', r'let\s+Some\(obs\)\s*=\s*weak\.upgrade\(\)\s*else\s*\{\s*continue',
+         r'ObserverState::Created\s*=>', r'obs\.state\(\)\.set\(ObserverState::InUse\)', r'let\s+was_necessary\s*=\s*node\.is_necessary\(\)',
+         r'ao\.insert\(', r'obs\.add_to_observed_node\(\)', r'node\.handle_after_stabilisation\(self\)', r'if\s+!was_necessary\s*\{',
+         r'node\.became_necessary_propagate\(self\)'], impl='impl State'))
+    add({'C09'}, lambda: F.in_order(
+        'frame/a-changed-node-is-queued-for-its-handlers-whichever-path-changed-it', 'src/node.rs', 'maybe_change_value_manual',
+        [r'if\s+did_change\s*\{', r'self\.changed_at\.set\(', r'self\.maybe_handle_after_stabilisation\(state\)', r'let\s+parents\s*='],
+        impl='impl Node'))
     # -- subscriber notifications ----------------------------------------------------------------------------
     add({'C09'}, lambda: F.only_in(
         'frame/handlers-run-only-from-stabilise_end', r'\.run_on_update_handlers\(', {'stabilise_end'}, SRC, min_hits=1))
@@ -95,10 +105,14 @@ def frames(prop):
         'frame/ordmap-symmetric_diff-is-self.diff(other)-retagged', 'incremental-map/src/im_rc.rs', 'symmetric_diff',
         [r'self\.diff\(other\)\s*\.map\(DiffElement::from_diff_item\)'],
         impl="impl<'a, K: Ord + 'a, V: PartialEq + 'a> SymmetricDiffMap<'a, K, V> for OrdMap<K, V>"))
-    add({'C18'}, lambda: F.in_order(
-        'frame/ordmap-symmetric_fold-folds-self.symmetric_diff(other)', 'incremental-map/src/im_rc.rs', 'symmetric_fold',
-        [r'self\.symmetric_diff\(other\)\s*\.fold\(init,\s*f\)'],
+    add({'C18'}, lambda: F.body_is(
+        'frame/ordmap-symmetric_fold-is-exactly-self.symmetric_diff(other).fold(init,f)', 'incremental-map/src/im_rc.rs', 'symmetric_fold',
+        r'self\.symmetric_diff\(other\)\.fold\(init,f\)',
         impl='impl<K: Ord, V: PartialEq> SymmetricFoldMap<K, V> for OrdMap<K, V>'))
+    add({'C18'}, lambda: F.body_is(
+        'frame/ordmap-symmetric_diff-is-exactly-self.diff(other)-retagged', 'incremental-map/src/im_rc.rs', 'symmetric_diff',
+        r'self\.diff\(other\)\.map\(DiffElement::from_diff_item\)',
+        impl="impl<'a, K: Ord + 'a, V: PartialEq + 'a> SymmetricDiffMap<'a, K, V> for OrdMap<K, V>"))
 
     # -- only needed nodes are scheduled -------------------------------------------------------------------
     add({'C05'}, lambda: F.each_guarded(
